@@ -282,6 +282,128 @@ def lifecycle(o1: int, o2: int, o3: int, o4: int, n: int, sys0: int, thr0: int, 
     return ""
 
 
+def real_timer(cycles: int, poll_fails: int, timer_text: int) -> str:
+    """
+    The REAL LongPoll.start / shutdown and RepeatedTimer (threading.Thread / Event in deep.utils replaced by recording
+    stand-ins): each start makes one initial poll (a failing one is survived) and starts exactly one daemon thread on the
+    timer loop; each shutdown sets the timer's event BEFORE joining its thread (otherwise the join never returns), and the
+    loop, run with the event set, ends without polling again; nothing is left running after the last shutdown.
+    PRE: 1 <= cycles <= 3 and 0 <= poll_fails <= 2 and 0 <= timer_text <= 2
+    POST: _ == ""
+    """
+    world.begin_path()
+    import types
+    import deep.utils as du
+    import deep.poll.poll as pp
+    from deep.poll.poll import LongPoll
+    from deepproto.proto.poll.v1.poll_pb2 import PollResponse, ResponseType
+    from vlib.world import World
+    cycles, poll_fails, timer_text = world.realize(cycles), world.realize(poll_fails), world.realize(timer_text)
+    log = []
+
+    class RecEvent:
+        def __init__(self):
+            self.flag = False
+
+        def set(self):
+            self.flag = True
+            log.append(("set", id(self)))
+
+        def is_set(self):
+            return self.flag
+
+        def wait(self, timeout=None):
+            log.append(("wait", timeout))
+            return self.flag
+
+    class RecThread:
+        instances = []
+
+        def __init__(self, target=None, name=None, args=(), kwargs=None, daemon=None):
+            self.target, self.name, self.daemon = target, name, daemon
+            self.started = self.joined = 0
+            RecThread.instances.append(self)
+
+        def start(self):
+            self.started += 1
+            log.append(("start", id(self)))
+
+        def join(self, timeout=None):
+            self.joined += 1
+            log.append(("join", id(self)))
+
+        def is_alive(self):
+            return self.started > self.joined
+    RecThread.instances = []
+    polls = []
+
+    class Stub:
+        def __init__(self, channel):
+            pass
+
+        def poll(self, request, metadata=None):
+            polls.append(1)
+            if poll_fails == 1 or (poll_fails == 2 and len(polls) == 1):
+                raise RuntimeError("service unavailable")
+            return PollResponse(ts_nanos=1, current_hash="", response_type=ResponseType.NO_CHANGE)
+
+    class FakeGrpc:
+        channel = None
+
+        def metadata(self):
+            return []
+    w = World(custom={"POLL_TIMER": [10, "10", "2.5"][timer_text]})
+    saved = (du.Thread, du.Event, pp.PollConfigStub, pp.time_ns)
+    du.Thread, du.Event, pp.PollConfigStub, pp.time_ns = RecThread, RecEvent, Stub, (lambda: 1)
+    real_time = du.time
+    du.time = types.SimpleNamespace(time=lambda: 3.0)
+    try:
+        lp = LongPoll(w.config, FakeGrpc())
+        for c in range(cycles):
+            before_polls, before_threads = len(polls), len(RecThread.instances)
+            try:
+                lp.start()
+            except Exception as e:
+                world.reached()
+                return "C14:timer:start-raised:" + type(e).__name__
+            if len(polls) != before_polls + 1:
+                return "C14:timer:initial-poll-not-made-once"
+            new = RecThread.instances[before_threads:]
+            if len(new) != 1 or new[0].started != 1:
+                return "C14:timer:not-exactly-one-timer-thread-started"
+            th = new[0]
+            if not th.daemon:
+                return "C14:timer:timer-thread-not-daemon(keeps the host process alive)"
+            mark = len(log)
+            try:
+                lp.shutdown()
+            except Exception as e:
+                world.reached()
+                return "C14:timer:shutdown-raised:" + type(e).__name__
+            tail = [e[0] for e in log[mark:]]
+            if "set" not in tail or "join" not in tail:
+                return "C14:timer:timer-not-stopped-by-shutdown"
+            if tail.index("set") > tail.index("join"):
+                return "C14:timer:join-before-the-stop-event-is-set(never returns)"
+            if th.joined != 1:
+                return "C14:timer:timer-thread-not-joined-once"
+            n_polls = len(polls)
+            th.target()              # the thread body, as it would now run: the event is set, so it must end at once
+            if len(polls) != n_polls:
+                return "C14:timer:polling-continues-after-shutdown"
+            try:
+                lp.shutdown()        # a second shutdown is a no-op
+            except Exception as e:
+                return "C14:timer:second-shutdown-raised:" + type(e).__name__
+        world.reached()
+        if any(t.is_alive() for t in RecThread.instances):
+            return "C14:timer:thread-left-running"
+    finally:
+        du.Thread, du.Event, pp.PollConfigStub, pp.time_ns = saved
+        du.time = real_time
+    return ""
+
+
 def _mut_skip_threading_restore():
     from deep.processor.trigger_handler import TriggerHandler
     import deep.processor.trigger_handler as th
@@ -320,13 +442,24 @@ def _mut_shutdown_unguarded():
     Deep.shutdown = shutdown
 
 
-MUTANTS = {"skip_threading_restore": _mut_skip_threading_restore, "restart_installs_again": _mut_restart_installs_again,
+def _mut_stop_without_set():
+    from deep.utils import RepeatedTimer
+
+    def stop(self):
+        self.thread.join()
+        self.event.set()
+    RepeatedTimer.stop = stop
+
+
+MUTANTS = {"stop_without_set": _mut_stop_without_set, "skip_threading_restore": _mut_skip_threading_restore, "restart_installs_again": _mut_restart_installs_again,
            "shutdown_unguarded": _mut_shutdown_unguarded}
 
 _FAIL = ["not poll_fails and pmask == 0 and not flush_fails and not stop_fails and not fail_base",
          "pmask == 2 and not flush_fails and not stop_fails", "pmask == 5 and flush_fails and not stop_fails", "pmask == 0 and flush_fails and stop_fails",
          "pmask == 7 and not flush_fails and stop_fails"]
 CONDITIONS = [
+    dict(fn="real_timer", cubes=["cycles == %d" % c for c in (1, 2, 3)], twins=["reach", "mutant:stop_without_set"],
+         bounds="real LongPoll.start/shutdown + RepeatedTimer with recording Thread/Event: 1-3 start/shutdown cycles x initial poll ok / always failing / failing once x POLL_TIMER as int / text / fractional text"),
     dict(fn="lifecycle",
          cubes={"quick": ["n == %d and (%s) and sys0 == %d and nt <= 1 and o1 <= 1 and o2 <= 1 and o3 <= 1" % (n, f, s) for n in (2, 3) for f in _FAIL for s in range(3)] +
                          ["n == 2 and (%s) and sys0 == 1 and nt == %d and o1 <= 1 and o2 <= 1" % (_FAIL[0], t) for t in (2, 3, 4, 5, 6)] +
